@@ -69,6 +69,9 @@ func c17Open(path, dir, key string, keyPresent bool) (driver.Conn, error) {
 			dsn += "&encrypt_key=" + queryEscape(key)
 		}
 		return store.Open(dsn)
+	case "dsn-allopts":
+		// every other option of the backend on as well (a Get then also touches the file)
+		return store.Open("fscache://" + dir + "?appname=app&encrypt=aesgcm&update_mtime=on&timeout=90s&connect_timeout=45s&encrypt_key=" + queryEscape(key))
 	case "dsn+env":
 		// both sources at once: the key named in the DSN is the one in force, not whatever
 		// key happens to be in the process environment (a valid, different one here)
@@ -529,7 +532,7 @@ func TestC17Tamper(t *testing.T) {
 		if gen.Pct(rt, "big", 15) {
 			n = gen.Pick(rt, "vbig", 5000, 70000, 140000, 200000)
 		}
-		return mkC17(c17Case{Kind: "tamper", Path: gen.Pick(rt, "path", c17Paths...), KeyLen: gen.Pick(rt, "klen", 16, 24, 32),
+		return mkC17(c17Case{Kind: "tamper", Path: gen.Pick(rt, "path", append([]string{"dsn-allopts"}, c17Paths...)...), KeyLen: gen.Pick(rt, "klen", 16, 24, 32),
 			ValLen: n, Seed: uint64(rapid.IntRange(1, 1<<30).Draw(rt, "seed")), URLLen: gen.Pick(rt, "urllen", 0, 0, 0, 150, 192, 250, 400, 1000), Stealth: gen.Pct(rt, "stealth", 35)})
 	}
 	RunCheck(t, c)
